@@ -425,3 +425,75 @@ func init() {
 	plans["C15"] = fsPlan("C15")
 	plans["C16"] = fsPlan("C16")
 }
+
+func damagePlan(cx *CheckCtx) int {
+	thorough := cx.Tier == "thorough"
+	stats := &dmgStats{ByClass: map[string]int{}, ByKind: map[string]int{}}
+	var smu sync.Mutex
+	var jobs []Job
+	scs := loadScenarios("C19")
+	nRandom := 2
+	if thorough {
+		nRandom = 12
+	}
+	add := func(name string, evs func(goit string, rng *rand.Rand) ([]M, map[string][]byte, int)) {
+		jobs = append(jobs, Job{Name: name, Make: func(goit string, c *Chunk, rng *rand.Rand) {
+			e, cont, tz := evs(goit, rng)
+			st := &dmgStats{ByClass: map[string]int{}, ByKind: map[string]int{}}
+			var infra []string
+			damageEnumerate(goit, c, e, cont, tz, rng, name, thorough, st, &infra)
+			smu.Lock()
+			stats.Cases += st.Cases
+			for k, v := range st.ByClass {
+				stats.ByClass[k] += v
+			}
+			for k, v := range st.ByKind {
+				stats.ByKind[k] += v
+			}
+			if st.MaxRSSKB > stats.MaxRSSKB {
+				stats.MaxRSSKB = st.MaxRSSKB
+			}
+			for _, s := range st.Samples {
+				if len(stats.Samples) < 6 {
+					stats.Samples = append(stats.Samples, s)
+				}
+			}
+			cx.InfraErr = append(cx.InfraErr, infra...)
+			smu.Unlock()
+		}})
+	}
+	for _, s := range scs {
+		s := s
+		add("damage-scenario "+s.Name, func(goit string, rng *rand.Rand) ([]M, map[string][]byte, int) { return s.Steps, nil, s.TZ })
+	}
+	prof := baseProfile("dmgrandom")
+	prof.Steps = 18
+	prof.Hostile = 0
+	withW(prof, "remove", 1, "rmdir", 0, "reset", 2, "rm", 1)
+	for i := 0; i < nRandom; i++ {
+		i := i
+		add(fmt.Sprintf("damage-random %d", i), func(goit string, rng *rand.Rand) ([]M, map[string][]byte, int) {
+			base, _ := os.MkdirTemp(scratchBase(), "vdr")
+			defer os.RemoveAll(base)
+			p := *prof
+			tr := runRandom(goit, base, NewTables(), &p, rng, fmt.Sprintf("dmg#%d", i))
+			return tr.Events, tr.Contents, tr.R.TZ
+		})
+	}
+	cx.runJobs(jobs, "GoitTrace")
+	cx.Extra["fs_cases"] = stats.Cases
+	cx.Extra["damage_cases"] = stats.Cases
+	cx.Extra["by_file_class"] = stats.ByClass
+	cx.Extra["by_mutation"] = stats.ByKind
+	cx.Extra["max_rss_kb"] = stats.MaxRSSKB
+	if len(stats.Samples) > 0 {
+		cx.Samples = stats.Samples
+	}
+	return cx.finish("fault_enumeration",
+		"damage case = one file of a repository Goit produced (object, index, HEAD, branch, config, reflog) with one mutation: every truncation, every single-byte deletion, single-byte substitutions, swap of two object files, generator-made arbitrary bytes (exhaustive over offsets for files up to the tier's budget, seeded sample beyond); on every damaged repository all read-only commands, cat-file, restore and reset --hard are run; evaluations = damage cases judged by TLC against C19_Total / C19_NoWrongData",
+		[]string{"arbitrary bytes come from grammar-aware and random generators, not from coverage-guided fuzzing (outside this technique family)", "allocation guard = max RSS of the process under 1 GiB, hang guard = 5 s timeout", "projector is trusted"})
+}
+
+func init() {
+	plans["C19"] = damagePlan
+}
